@@ -657,7 +657,7 @@ pub fn run(family: &str, tier: Tier, out: &mut Output) {
     let name = format!("c15.{}", family);
     for (conf, _) in configs() {
         let cfg = Json::obj().set("confidentiality_limit", conf).set("key_update_window", WINDOW).set("integrity_limit", INTEGRITY).set("eager", eager);
-        out.push(explore("seqmc", &name, cfg, &move || Net::new(conf, eager), &Limits2::depth(tier.pick(10, 14)).wall(tier.pick(10.0, 200.0))));
+        out.push(explore("seqmc", &name, cfg, &move || Net::new(conf, eager), &Limits2::depth(tier.pick(14, 17)).wall(tier.pick(90.0, 900.0))));
     }
 }
 
